@@ -38,7 +38,7 @@ def main():
         rc1, out1 = sh(env + democmd, r, 1200)
         p1, f1 = summarize(out1)
         res['demo_with_change'] = {'exit': rc1, 'passed': p1, 'failed': f1}
-        rc2, out2 = sh(env + 'cargo test --offline -- --test-threads 8 2>&1', r, 1500)
+        rc2, out2 = sh(env + 'cargo test --offline --no-fail-fast -- --test-threads 8 2>&1', r, 1500)
         # existing suite = everything except the demo binary
         blocks = re.split(r'\n\s+Running ', out2)
         ex_failed = 0
@@ -70,6 +70,6 @@ def main():
             shutil.copy(demo, os.path.join(out, 'demo' + os.path.splitext(demo)[1]))
             res['ran'] = ['git apply patch.diff (scratch copy of /repo HEAD)', 'cargo test --offline --test demo_seeded  (fails)', 'cargo test --offline  (existing suite: %d passed, 0 failed)' % res['existing_suite_with_change']['passed'], 'git checkout -- src ; cargo test --offline --test demo_seeded  (passes)']
             json.dump(res, open(os.path.join(out, 'meta.json'), 'w'), indent=1)
-        print(json.dumps(res)[:600])
+        print(json.dumps({k: v for k, v in res.items() if not k.startswith('tail')}))
 
 main()
